@@ -1,7 +1,7 @@
 (* Facts about the CycloneDX translation model (Model/Cdx.v). *)
 From Coq Require Import Lia Permutation.
 From Verif Require Import Model.Base Model.Node Model.Graph Model.Match Model.Flat Model.Spdx Model.Cdx Gen.Tables
-  Proofs.ListFacts Proofs.GraphFacts Proofs.OpsWf.
+  Proofs.ListFacts Proofs.GraphFacts Proofs.OpsWf Proofs.SetLaws Proofs.RelateFacts.
 Open Scope list_scope.
 
 (* ---- induction over nested components ------------------------------------------------------------ *)
@@ -833,3 +833,555 @@ Lemma phase_type_rt : forallb (fun t => match phase_of {| dt_type := Some t; dt_
     [DocumentType_SBOMType_BUILD; DocumentType_SBOMType_DESIGN; DocumentType_SBOMType_ANALYZED; DocumentType_SBOMType_SOURCE;
      DocumentType_SBOMType_DECOMISSION; DocumentType_SBOMType_DEPLOYED; DocumentType_SBOMType_DISCOVERY] = true.
 Proof. vm_compute. reflexivity. Qed.
+
+
+(* ---- what the unserializer builds from a BOM whose references are all present (C02) ----------- *)
+Definition refs_nonempty (c : comp) : Prop := forall r, In r (refs c) -> r <> "".
+
+Lemma comp_node_id c cc : c_ref c <> "" -> n_id (comp_to_node c cc) = c_ref c.
+Proof. intros H. unfold comp_to_node; cbn [n_id]. apply String.eqb_neq in H. rewrite H. reflexivity. Qed.
+
+Lemma refs_head c : In (c_ref c) (refs c).
+Proof. destruct c as [a1 a2 a3 a4 a5 a6 a7 a8 a9 a10 a11 a12 subs]; left; reflexivity. Qed.
+
+Lemma refs_sub c s r : In s (c_sub c) -> In r (refs s) -> In r (refs c).
+Proof. intros Hs Hr. destruct c as [a1 a2 a3 a4 a5 a6 a7 a8 a9 a10 a11 a12 subs]; cbn [refs c_sub] in *. right. apply in_flat_map. exists s. auto. Qed.
+
+Definition frag_spec (c : comp) (nl : nodelist) : Prop :=
+  (forall i, Nset nl i <-> In i (refs c)) /\
+  (forall f t x, Eset nl f t x <-> t = Edge_Type_contains /\ In (f, x) (pairs c)) /\
+  nl_root_elements nl = [c_ref c].
+
+Lemma comp_to_nl_spec : forall c cc, refs_nonempty c -> frag_spec c (fst (comp_to_nl c cc)).
+Proof.
+  induction c as [c IH] using comp_ind'. intros cc Hne.
+  assert (Hid : forall k, n_id (comp_to_node c k) = c_ref c) by (intros k; apply comp_node_id, Hne, refs_head).
+  assert (Hsubs : forall s, In s (c_sub c) -> refs_nonempty s) by (intros s Hs r Hr; apply Hne; exact (refs_sub c s r Hs Hr)).
+  destruct c as [r t n v d cp l h x p cpe s sub]. cbn [comp_to_nl c_sub]. cbn [c_sub c_ref] in *.
+  set (cfull := mk_comp r t n v d cp l h x p cpe s sub) in *.
+  set (nd := comp_to_node cfull (cc + 1)).
+  assert (Hnd : n_id nd = r) by (apply (Hid (cc + 1))).
+  set (nl0 := {| nl_nodes := [nd]; nl_edges := []; nl_root_elements := [n_id nd] |}).
+  (* invariant over the processed prefix of the sub-components *)
+  set (inv := fun (done : list comp) (nl : nodelist) =>
+                (forall i, Nset nl i <-> i = r \/ In i (flat_map refs done)) /\
+                (forall f t0 x0, Eset nl f t0 x0 <-> t0 = Edge_Type_contains /\
+                                 In (f, x0) (map (fun s0 => (r, c_ref s0)) done ++ flat_map pairs done)) /\
+                nl_root_elements nl = [r]).
+  assert (H0 : inv [] nl0).
+  { split; [|split].
+    - intros i. unfold Nset, ids, nl0; cbn [nl_nodes map flat_map]. rewrite Hnd. split; [intros [<-|[]]; left; reflexivity|intros [->|[]]; left; reflexivity].
+    - intros f t0 x0. unfold Eset, nl0; cbn [nl_edges map flat_map app]. split; [intros [e [[] _]]|intros [_ []]].
+    - unfold nl0; cbn [nl_root_elements]. rewrite Hnd. reflexivity. }
+  assert (Hfold : forall todo done nl k, (forall s0, In s0 todo -> In s0 sub) -> inv done nl ->
+            inv (done ++ todo)
+                (fst (fold_left (fun st sub0 => let '(nl1, k1) := st in
+                                                let '(snl, k') := comp_to_nl sub0 k1 in
+                                                (or_keep nl1 (relate_list_at nl1 snl (n_id nd) Edge_Type_contains), k'))
+                                todo (nl, k)))).
+  { induction todo as [|s1 rest IHt]; intros done nl k Hin Hinv; cbn [fold_left fst].
+    - rewrite app_nil_r. exact Hinv.
+    - assert (Hs1 : In s1 sub) by (apply Hin; left; reflexivity).
+      rewrite Forall_forall in IH. pose proof (IH s1 Hs1 k (Hsubs s1 Hs1)) as [SN [SE SR]].
+      destruct (comp_to_nl s1 k) as [snl k'] eqn:Es. cbn [fst] in SN, SE, SR.
+      destruct Hinv as [IN [IE IR]].
+      assert (Hhas : has nl (n_id nd) = true).
+      { apply mem_In. apply (proj2 (IN (n_id nd))). left. exact Hnd. }
+      destruct (relate_list_ok nl snl (n_id nd) Edge_Type_contains Hhas) as [l' [El' _]].
+      rewrite El'. cbn [or_keep].
+      replace (done ++ s1 :: rest) with ((done ++ [s1]) ++ rest) by (rewrite <- app_assoc; reflexivity).
+      apply IHt; [intros s0 Hs0; apply Hin; right; exact Hs0|].
+      split; [|split].
+      + intros i. rewrite (relate_list_N _ _ _ _ _ i El'), IN, SN, flat_map_app'. cbn [flat_map]. rewrite app_nil_r, in_app_iff. tauto.
+      + intros f t0 x0. rewrite (relate_list_E _ _ _ _ _ f t0 x0 El'), IE, SE, SR, Hnd.
+        rewrite map_app, flat_map_app'. cbn [map flat_map]. rewrite app_nil_r, !in_app_iff. cbn [In].
+        assert (Heq : (r, c_ref s1) = (f, x0) <-> f = r /\ c_ref s1 = x0)
+          by (split; [intros E; injection E; auto|intros [-> ->]; reflexivity]).
+        rewrite Heq. tauto.
+      + rewrite (relate_list_R _ _ _ _ _ El'). exact IR. }
+  specialize (Hfold sub [] nl0 (cc + 1) (fun s0 H => H) H0). cbn [app] in Hfold.
+  destruct Hfold as [FN [FE FR]].
+  split; [|split].
+  - intros i. rewrite FN. unfold cfull. cbn [refs c_ref c_sub]. cbn [In]. split; intros [H|H]; auto.
+  - intros f t0 x0. rewrite FE. unfold cfull. cbn [pairs c_ref c_sub]. tauto.
+  - exact FR.
+Qed.
+
+Lemma pairs_in_refs : forall c f x, In (f, x) (pairs c) -> In f (refs c) /\ In x (refs c).
+Proof.
+  induction c as [c IH] using comp_ind'. intros f x H.
+  destruct c as [r t n v d cp l h xr p cpe s sub]. cbn [pairs refs c_ref c_sub] in *.
+  rewrite Forall_forall in IH.
+  apply in_app_or in H as [H|H].
+  - apply in_map_iff in H as [s0 [E Hs0]]. injection E as <- <-. split; [left; reflexivity|].
+    right. apply in_flat_map. exists s0. split; [exact Hs0|apply refs_head].
+  - apply in_flat_map in H as [s0 [Hs0 H]]. destruct (IH s0 Hs0 f x H) as [H1 H2].
+    split; right; apply in_flat_map; exists s0; auto.
+Qed.
+
+Theorem cdx_unser_spec b mc : b_has_metadata b = true -> b_meta_comp b = Some mc ->
+  (forall r, In r (refs mc ++ flat_map refs (b_components b)) -> r <> "") ->
+  let nl := cdx_unser_nl b in
+  (forall i, Nset nl i <-> In i (refs mc ++ flat_map refs (b_components b))) /\
+  (forall f t x, Eset nl f t x <-> t = Edge_Type_contains /\
+     In (f, x) (pairs mc ++ flat_map pairs (b_components b) ++ map (fun c => (c_ref mc, c_ref c)) (b_components b))) /\
+  nl_root_elements nl = [c_ref mc].
+Proof.
+  intros Hm Emc Hne. cbn zeta. unfold cdx_unser_nl. rewrite Hm, Emc.
+  assert (Hmne : refs_nonempty mc) by (intros r Hr; apply Hne, in_or_app; left; exact Hr).
+  pose proof (comp_to_nl_spec mc 0 Hmne) as [MN [ME MR]].
+  destruct (comp_to_nl mc 0) as [nlm k0]. cbn [fst] in MN, ME, MR.
+  set (inv := fun (done : list comp) (nl : nodelist) =>
+                (forall i, Nset nl i <-> In i (refs mc ++ flat_map refs done)) /\
+                (forall f t x, Eset nl f t x <-> t = Edge_Type_contains /\
+                   In (f, x) (pairs mc ++ flat_map pairs done ++ map (fun c => (c_ref mc, c_ref c)) done)) /\
+                nl_root_elements nl = [c_ref mc]).
+  assert (H0 : inv [] (add empty_nl nlm)).
+  { split; [|split].
+    - intros i. rewrite add_N, MN. cbn [flat_map]. rewrite app_nil_r. unfold Nset at 1, ids; cbn. tauto.
+    - intros f t x. rewrite add_E, ME, !MN. cbn [flat_map map app]. rewrite app_nil_r.
+      split.
+      + intros [[[e [[] _]]|H] _]. exact H.
+      + intros [Ht H]. destruct (pairs_in_refs mc f x H) as [H1 H2]. split; [right; split; assumption|]. split; right; assumption.
+    - unfold add; cbn [nl_root_elements empty_nl]. unfold merge_roots. cbn [app]. rewrite MR. reflexivity. }
+  assert (Hfold : forall todo done doc k, (forall c, In c todo -> refs_nonempty c) -> inv done doc ->
+            inv (done ++ todo)
+                (fst (fold_left (fun st c => let '(doc0, k1) := st in
+                                             let '(nl, k') := comp_to_nl c k1 in
+                                             (match nl_root_elements doc0 with
+                                              | [] => add doc0 nl
+                                              | r :: _ => or_keep doc0 (relate_list_at doc0 nl r Edge_Type_contains)
+                                              end, k')) todo (doc, k)))).
+  { induction todo as [|c rest IHt]; intros done doc k Hc Hinv; cbn [fold_left fst].
+    - rewrite app_nil_r. exact Hinv.
+    - pose proof (comp_to_nl_spec c k (Hc c (or_introl eq_refl))) as [SN [SE SR]].
+      destruct (comp_to_nl c k) as [nl k'] eqn:Ec. cbn [fst] in SN, SE, SR.
+      destruct Hinv as [IN [IE IR]]. rewrite IR.
+      assert (Hhas : has doc (c_ref mc) = true).
+      { apply mem_In. apply (proj2 (IN (c_ref mc))). apply in_or_app. left. apply refs_head. }
+      destruct (relate_list_ok doc nl (c_ref mc) Edge_Type_contains Hhas) as [l' [El' _]].
+      rewrite El'. cbn [or_keep].
+      replace (done ++ c :: rest) with ((done ++ [c]) ++ rest) by (rewrite <- app_assoc; reflexivity).
+      apply IHt; [intros c0 Hc0; apply Hc; right; exact Hc0|].
+      split; [|split].
+      + intros i. rewrite (relate_list_N _ _ _ _ _ i El'), IN, SN, flat_map_app'. cbn [flat_map]. rewrite app_nil_r, !in_app_iff. tauto.
+      + intros f t x. rewrite (relate_list_E _ _ _ _ _ f t x El'), IE, SE, SR.
+        rewrite map_app, flat_map_app'. cbn [map flat_map]. rewrite app_nil_r, !in_app_iff. cbn [In].
+        assert (Heq : (c_ref mc, c_ref c) = (f, x) <-> f = c_ref mc /\ c_ref c = x)
+          by (split; [intros E; injection E; auto|intros [-> ->]; reflexivity]).
+        rewrite Heq. tauto.
+      + rewrite (relate_list_R _ _ _ _ _ El'). exact IR. }
+  specialize (Hfold (b_components b) [] (add empty_nl nlm) k0).
+  cbn [app] in Hfold. apply Hfold; [|exact H0].
+  intros c Hc r Hr. apply Hne. apply in_or_app. right. apply in_flat_map. exists c. auto.
+Qed.
+
+(* ---- the first pass records every contained node ------------------------------------------------ *)
+Lemma sassoc_Some_In {A} k (l : list (string * A)) v : sassoc k l = Some v -> In (k, v) l.
+Proof.
+  induction l as [|[k' v'] r IH]; simpl; [discriminate|].
+  destruct (String.eqb k k') eqn:E; intros H.
+  - apply String.eqb_eq in E. injection H as <-. subst. left. reflexivity.
+  - right. exact (IH H).
+Qed.
+
+Lemma sassoc_In_Some {A} k (l : list (string * A)) : In k (map fst l) -> exists v, sassoc k l = Some v.
+Proof.
+  induction l as [|[k' v'] r IH]; simpl; [intros []|].
+  destruct (String.eqb k k') eqn:E; [intros _; eexists; reflexivity|].
+  intros [H|H]; [subst; rewrite String.eqb_refl in E; discriminate|exact (IH H)].
+Qed.
+
+Lemma NoDup_keys_unique {A} (l : list (string * A)) k v1 v2 :
+  NoDup (map fst l) -> In (k, v1) l -> In (k, v2) l -> v1 = v2.
+Proof.
+  induction l as [|[k' v'] r IH]; intros Hn H1 H2; [destruct H1|].
+  cbn [map fst] in Hn. inversion Hn as [|? ? Hnot Hn']; subst.
+  destruct H1 as [E1|H1], H2 as [E2|H2].
+  - congruence.
+  - injection E1 as -> ->. exfalso. apply Hnot. apply in_map_iff. exists (k, v2). auto.
+  - injection E2 as -> ->. exfalso. apply Hnot. apply in_map_iff. exists (k, v1). auto.
+  - exact (IH Hn' H1 H2).
+Qed.
+
+Section RecordContains.
+  Variables (root from : string).
+  Let stepf := fun (p : list (string * string)) (x : string) =>
+    if (String.eqb x root || String.eqb x from)%bool then p
+    else match sassoc x p with Some _ => p | None => p ++ [(x, from)] end.
+
+  Lemma rc_step_mono p y x : In x (map fst p) -> In x (map fst (stepf p y)).
+  Proof.
+    intros H. unfold stepf. destruct (String.eqb y root || String.eqb y from)%bool; [exact H|].
+    destruct (sassoc y p); [exact H|]. rewrite map_app. apply in_or_app. left. exact H.
+  Qed.
+
+  Lemma rc_fold_mono tos : forall p x, In x (map fst p) -> In x (map fst (fold_left stepf tos p)).
+  Proof. induction tos as [|y r IH]; intros p x H; cbn [fold_left]; [exact H|]. apply IH, rc_step_mono, H. Qed.
+
+  Lemma rc_fold_adds tos : forall p x, In x tos -> x <> root -> x <> from -> In x (map fst (fold_left stepf tos p)).
+  Proof.
+    induction tos as [|y r IH]; intros p x Hin Hr Hf; [destruct Hin|]. cbn [fold_left].
+    destruct Hin as [->|Hin]; [|apply IH; assumption].
+    apply rc_fold_mono. unfold stepf.
+    apply String.eqb_neq in Hr, Hf. rewrite Hr, Hf. cbn [orb].
+    destruct (sassoc x p) eqn:E.
+    - apply sassoc_Some_In in E. apply in_map_iff. exists (x, s). auto.
+    - rewrite map_app. apply in_or_app. right. left. reflexivity.
+  Qed.
+End RecordContains.
+
+Lemma parents_complete root es e x : In e es -> e_type e = Edge_Type_contains -> In x (e_to e) ->
+  x <> root -> x <> e_from e -> In x (map fst (parents root es)).
+Proof.
+  intros He Ht Hx Hr Hf. unfold parents.
+  assert (Hmono : forall es0 p y, In y (map fst p) ->
+            In y (map fst (fold_left (fun p e => if Z.eqb (e_type e) Edge_Type_contains then record_contains root p e else p) es0 p))).
+  { induction es0 as [|e0 r IH]; intros p y H; cbn [fold_left]; [exact H|]. apply IH.
+    destruct (Z.eqb (e_type e0) Edge_Type_contains); [|exact H]. unfold record_contains. apply rc_fold_mono. exact H. }
+  assert (Hgo : forall es0 p, In e es0 ->
+            In x (map fst (fold_left (fun p e => if Z.eqb (e_type e) Edge_Type_contains then record_contains root p e else p) es0 p))).
+  { induction es0 as [|e0 r IH]; intros p Hin; [destruct Hin|]. cbn [fold_left].
+    destruct Hin as [->|Hin]; [|apply IH; exact Hin].
+    apply Hmono. rewrite Ht, Z.eqb_refl. unfold record_contains. apply rc_fold_adds; assumption. }
+  apply Hgo. exact He.
+Qed.
+
+(* ---- with adequate fuel, a placed node's children are all placed (descendant closure) ------------ *)
+Section Closure.
+  Variables (cd : string -> comp) (ch : string -> list string) (cand : list string).
+  Hypothesis Hch : forall x y, In y (ch x) -> In y cand.
+
+  (* every placed node outside the open set (the nodes whose nests are still being built) has all its
+     children placed *)
+  Definition dco (pl open : list string) : Prop :=
+    forall p, In p pl -> ~ In p open -> forall x, In x (ch p) -> In x pl.
+
+  Lemma build_dc : forall fuel placed i open,
+    (length (unplaced cand (i :: placed)) < fuel)%nat -> incl open placed -> ~ In i placed ->
+    dco placed open -> dco (snd (build fuel cd ch placed i)) open.
+  Proof.
+    induction fuel as [|f IH]; intros placed i open Hlt Hop Hni Hdc; [lia|].
+    cbn [build].
+    assert (Hfold : forall todo st, (forall c, In c todo -> In c cand) -> incl (i :: placed) (snd st) -> dco (snd st) (i :: open) ->
+              let st' := fold_left (build_step (build f cd ch)) todo st in
+              incl (snd st) (snd st') /\ dco (snd st') (i :: open) /\ forall c, In c todo -> In c (snd st')).
+    { induction todo as [|c rest IHt]; intros st Hc Hinc Hd; cbn [fold_left].
+      - split; [apply incl_refl|]. split; [exact Hd|intros c []].
+      - assert (Hstep : incl (snd st) (snd (build_step (build f cd ch) st c)) /\
+                        dco (snd (build_step (build f cd ch) st c)) (i :: open) /\ In c (snd (build_step (build f cd ch) st c))).
+        { destruct st as [acc pl]. unfold build_step. cbn [snd] in *. destruct (mem c pl) eqn:Em.
+          - cbn [snd]. split; [apply incl_refl|]. split; [exact Hd|apply mem_In; exact Em].
+          - apply mem_false in Em.
+            assert (Hlt' : (length (unplaced cand (c :: pl)) < f)%nat).
+            { pose proof (unplaced_less cand pl c (Hc c (or_introl eq_refl)) Em).
+              pose proof (unplaced_mono cand _ _ Hinc). lia. }
+            assert (Hop' : incl (i :: open) pl).
+            { intros y [<-|Hy]; [apply Hinc; left; reflexivity|apply Hinc; right; apply Hop; exact Hy]. }
+            pose proof (IH pl c (i :: open) Hlt' Hop' Em Hd) as Hd'.
+            pose proof (build_incl cd ch f pl c) as Hi.
+            destruct (build f cd ch pl c) as [sc pl']. cbn [snd] in *.
+            split; [intros y Hy; apply Hi; right; exact Hy|]. split; [exact Hd'|apply Hi; left; reflexivity]. }
+        destruct Hstep as [S1 [S2 S3]].
+        destruct (IHt (build_step (build f cd ch) st c) (fun c0 H => Hc c0 (or_intror H)) (fun y Hy => S1 y (Hinc y Hy)) S2) as [T1 [T2 T3]].
+        split; [intros y Hy; apply T1, S1; exact Hy|]. split; [exact T2|].
+        intros c0 [<-|H0]; [apply T1; exact S3|apply T3; exact H0]. }
+    assert (Hd0 : dco (i :: placed) (i :: open)).
+    { intros p [<-|Hp] Hno x Hx; [exfalso; apply Hno; left; reflexivity|].
+      right. apply (Hdc p Hp); [intros H; apply Hno; right; exact H|exact Hx]. }
+    destruct (Hfold (ch i) ([], i :: placed) (Hch i) (incl_refl _) Hd0) as [F1 [F2 F3]].
+    destruct (fold_left (build_step (build f cd ch)) (ch i) ([], i :: placed)) as [subs placed']. cbn [snd] in *.
+    intros p Hp Hno x Hx. destruct (string_dec p i) as [->|Hne].
+    - apply F3. exact Hx.
+    - apply (F2 p Hp); [intros [E|H]; [congruence|exact (Hno H)]|exact Hx].
+  Qed.
+End Closure.
+
+(* ---- containment trees: the forest is exactly the parent relation --------------------------------- *)
+Lemma refs_decompose : forall c x, In x (refs c) -> x = c_ref c \/ exists p, In (p, x) (pairs c).
+Proof.
+  induction c as [c IH] using comp_ind'. intros x H.
+  destruct c as [r t n v d cp l h xr p cpe s sub]. cbn [refs pairs c_ref c_sub] in *.
+  rewrite Forall_forall in IH.
+  destruct H as [<-|H]; [left; reflexivity|right].
+  apply in_flat_map in H as [s0 [Hs0 H]]. destruct (IH s0 Hs0 x H) as [->|[p0 Hp0]].
+  - exists r. apply in_or_app. left. apply in_map_iff. exists s0. auto.
+  - exists p0. apply in_or_app. right. apply in_flat_map. exists s0. auto.
+Qed.
+
+Section TreeAssemble.
+  Variables (order : list string) (root : string) (cd : string -> comp) (par : list (string * string)) (rank : string -> nat).
+  Hypothesis Hnd : NoDup order.
+  Hypothesis Hcd : forall x, In x order -> c_ref (cd x) = x /\ c_sub (cd x) = [].
+  Hypothesis Hpar : forall x p, In (x, p) par -> In x order /\ x <> root /\ (p = root \/ In p order).
+  Hypothesis Hkeys : NoDup (map fst par).
+  Hypothesis Hrank : forall x p, In (x, p) par -> (rank p < rank x)%nat.
+  Hypothesis Hconn : forall x, In x order -> x <> root -> exists p, In (x, p) par.
+
+  Let F := S (length order).
+  Let ch := children_of par.
+
+  Lemma ch_in_order x y : In y (ch x) -> In y order.
+  Proof. intros H. apply children_of_In in H. exact (proj1 (Hpar _ _ H)). Qed.
+
+  Lemma unplaced_lt pl i : (length (unplaced order (i :: pl)) < F)%nat.
+  Proof. unfold unplaced, F. pose proof (filter_len (fun x => negb (mem x (i :: pl))) order). lia. Qed.
+
+  (* the state after a walk: placed nodes are descendant-closed, top-level components sit under the root *)
+  Definition walk_inv (st : list comp * list string) : Prop :=
+    dco ch (snd st) [] /\ Forall (fun c => In (c_ref c, root) par) (fst st).
+
+  Lemma first_walk_step st i : In i order -> walk_inv st ->
+    let st' := top_step F root cd par true st i in
+    walk_inv st' /\ incl (snd st) (snd st') /\ (i <> root -> In (i, root) par -> In i (snd st')).
+  Proof.
+    intros Hi [Hd Ht]. destruct st as [acc pl]. cbn [fst snd] in *. unfold top_step.
+    destruct (String.eqb i root) eqn:Er.
+    - cbn [orb fst snd]. split; [split; assumption|]. split; [apply incl_refl|].
+      intros Hne. apply String.eqb_eq in Er. contradiction.
+    - cbn [orb]. destruct (mem i pl) eqn:Em.
+      + cbn [fst snd]. split; [split; assumption|]. split; [apply incl_refl|]. intros _ _. apply mem_In. exact Em.
+      + cbn [andb]. destruct (sassoc i par) as [p|] eqn:Es.
+        * destruct (String.eqb p root) eqn:Ep; cbn [negb].
+          -- (* directly under the root: built now *)
+             apply String.eqb_eq in Ep. subst p. apply mem_false in Em.
+             pose proof (build_dc cd ch order ch_in_order F pl i [] (unplaced_lt pl i) (fun y H => match H with end) Em Hd) as Hd'.
+             pose proof (build_incl cd ch F pl i) as Hinc.
+             pose proof (build_ref_pairs cd ch (fun x => In x order) Hcd ch_in_order F pl i Hi) as [Href _].
+             fold ch. destruct (build F cd ch pl i) as [c pl']. cbn [fst snd] in *.
+             split; [split; [exact Hd'|]|split].
+             ++ apply Forall_app. split; [exact Ht|]. constructor; [|constructor]. rewrite Href. apply sassoc_Some_In. exact Es.
+             ++ intros y Hy. apply Hinc. right. exact Hy.
+             ++ intros _ _. apply Hinc. left. reflexivity.
+          -- cbn [fst snd]. split; [split; assumption|]. split; [apply incl_refl|].
+             intros _ Hir. apply sassoc_Some_In in Es. pose proof (NoDup_keys_unique par i p root Hkeys Es Hir). subst.
+             rewrite String.eqb_refl in Ep. discriminate.
+        * (* no recorded parent: impossible for a connected non-root node, but harmless *)
+          apply String.eqb_neq in Er. destruct (Hconn i Hi Er) as [p Hp].
+          destruct (sassoc_In_Some i par) as [v Hv]; [apply in_map_iff; exists (i, p); auto|]. congruence.
+  Qed.
+
+  Lemma first_walk : forall l st, incl l order -> walk_inv st ->
+    let st' := fold_left (top_step F root cd par true) l st in
+    walk_inv st' /\ incl (snd st) (snd st') /\ (forall i, In i l -> i <> root -> In (i, root) par -> In i (snd st')).
+  Proof.
+    induction l as [|i r IH]; intros st Hl Hinv; cbn [fold_left].
+    - split; [exact Hinv|]. split; [apply incl_refl|intros i []].
+    - destruct (first_walk_step st i (Hl i (or_introl eq_refl)) Hinv) as [H1 [H2 H3]].
+      destruct (IH _ (fun y Hy => Hl y (or_intror Hy)) H1) as [G1 [G2 G3]].
+      split; [exact G1|]. split; [intros y Hy; apply G2, H2; exact Hy|].
+      intros j [<-|Hj] Hne Hjr; [apply G2, H3; assumption|apply G3; assumption].
+  Qed.
+
+  Definition st1 := fold_left (top_step F root cd par true) order ([], []).
+
+  Lemma st1_inv : walk_inv st1 /\ forall i, In i order -> i <> root -> In (i, root) par -> In i (snd st1).
+  Proof.
+    destruct (first_walk order ([], []) (incl_refl _)) as [H1 [_ H3]].
+    - split; [intros p []|constructor].
+    - split; assumption.
+  Qed.
+
+  (* after the first walk every node other than the root is placed: by induction on the depth *)
+  Lemma all_placed : forall n x, (rank x <= n)%nat -> In x order -> x <> root -> In x (snd st1).
+  Proof.
+    destruct st1_inv as [[Hd _] Htop].
+    induction n as [|n IH]; intros x Hr Hx Hne; destruct (Hconn x Hx Hne) as [p Hp]; pose proof (Hrank x p Hp) as Hlt.
+    - lia.
+    - destruct (Hpar x p Hp) as [_ [_ [->|Hpo]]]; [apply Htop; assumption|].
+      destruct (string_dec p root) as [->|Hpr]; [apply Htop; assumption|].
+      assert (Hpp : In p (snd st1)) by (apply IH; [lia|exact Hpo|exact Hpr]).
+      apply (Hd p Hpp (fun H => H)). apply children_of_In. exact Hp.
+  Qed.
+
+  (* the second walk finds nothing left to do *)
+  Lemma second_walk_id : forall l st, (forall i, In i l -> i = root \/ In i (snd st)) ->
+    fold_left (top_step F root cd par false) l st = st.
+  Proof.
+    induction l as [|i r IH]; intros st H; cbn [fold_left]; [reflexivity|].
+    assert (E : top_step F root cd par false st i = st).
+    { destruct st as [acc pl]. unfold top_step. destruct (H i (or_introl eq_refl)) as [->|Hin].
+      - rewrite String.eqb_refl. reflexivity.
+      - cbn [snd] in Hin. apply mem_In in Hin. rewrite Hin, orb_true_r. reflexivity. }
+    rewrite E. apply IH. intros j Hj. apply H. right. exact Hj.
+  Qed.
+
+  Theorem tree_forest_is_first_walk : assemble order root cd par = fst st1.
+  Proof.
+    unfold assemble, assemble_with. fold F. fold st1. rewrite second_walk_id; [reflexivity|].
+    intros i Hi. destruct (string_dec i root) as [->|Hne]; [left; reflexivity|right].
+    exact (all_placed (rank i) i (Nat.le_refl _) Hi Hne).
+  Qed.
+
+  (* nesting and top-level placement together are exactly the recorded parent relation *)
+  Theorem tree_forest_spec p x :
+    In (p, x) (flat_map pairs (assemble order root cd par) ++ map (fun c => (root, c_ref c)) (assemble order root cd par))
+    <-> In (x, p) par.
+  Proof.
+    pose proof (assemble_pairs_sound F order root cd par Hcd (fun y q H => proj1 (Hpar y q H))) as Hsound.
+    pose proof (assemble_exactly_once F order root cd par Hnd Hcd (fun y q H => conj (proj1 (Hpar y q H)) (proj1 (proj2 (Hpar y q H))))) as Honce.
+    fold (assemble order root cd par) in Hsound, Honce.
+    assert (Htop : Forall (fun c => In (c_ref c, root) par) (assemble order root cd par)).
+    { rewrite tree_forest_is_first_walk. exact (proj2 (proj1 st1_inv)). }
+    rewrite Forall_forall in Htop.
+    split.
+    - intros H. apply in_app_or in H as [H|H]; [exact (Hsound p x H)|].
+      apply in_map_iff in H as [c [E Hc]]. injection E as <- <-. exact (Htop c Hc).
+    - intros H. destruct (Hpar x p H) as [Hxo [Hxr _]].
+      assert (Hx : In x (flat_map refs (assemble order root cd par))).
+      { eapply Permutation_in; [apply Permutation_sym; exact Honce|]. apply filter_In. split; [exact Hxo|]. apply negb_eqb_true. exact Hxr. }
+      apply in_flat_map in Hx as [c [Hc Hx]]. destruct (refs_decompose c x Hx) as [->|[p' Hp']].
+      + pose proof (NoDup_keys_unique par (c_ref c) p root Hkeys H (Htop c Hc)). subst p.
+        apply in_or_app. right. apply in_map_iff. exists c. auto.
+      + assert (Hin : In (p', x) (flat_map pairs (assemble order root cd par))) by (apply in_flat_map; exists c; auto).
+        pose proof (NoDup_keys_unique par x p p' Hkeys H (Hsound p' x Hin)). subst p'.
+        apply in_or_app. left. exact Hin.
+  Qed.
+End TreeAssemble.
+
+(* ---- C02: the containment tree read back is the one written --------------------------------------- *)
+Record cdx_tree_class (nl : nodelist) (root : string) (rank : string -> nat) : Prop := {
+  tc_roots : nl_root_elements nl = [root];
+  tc_nodup : NoDup (ids nl);
+  tc_root_in : In root (ids nl);
+  tc_ids : forall i, In i (ids nl) -> i <> "" /\ is_auto_ref i = false;
+  tc_edges : forall e, In e (nl_edges nl) ->
+               In (e_from e) (ids nl) /\ forall x, In x (e_to e) -> In x (ids nl) /\ e_type e = Edge_Type_contains;
+  tc_root_rank : rank root = 0%nat;
+  tc_rank : forall e x, In e (nl_edges nl) -> In x (e_to e) -> (rank (e_from e) < rank x)%nat;
+  tc_unique : forall e1 e2 x, In e1 (nl_edges nl) -> In e2 (nl_edges nl) -> In x (e_to e1) -> In x (e_to e2) -> e_from e1 = e_from e2;
+  tc_conn : forall i, In i (ids nl) -> i <> root -> exists e, In e (nl_edges nl) /\ In i (e_to e)
+}.
+
+Lemma set_sub_self c : set_sub c (c_sub c) = c.
+Proof. destruct c as [a1 a2 a3 a4 a5 a6 a7 a8 a9 a10 a11 a12 subs]. reflexivity. Qed.
+
+Lemma clear_auto_id : forall c, (forall r, In r (refs c) -> is_auto_ref r = false) -> clear_auto c = c.
+Proof.
+  induction c as [c IH] using comp_ind'. intros H.
+  assert (Hs : map clear_auto (c_sub c) = c_sub c).
+  { rewrite <- (map_id (c_sub c)) at 2. apply map_ext_in. intros s Hs. rewrite Forall_forall in IH. apply (IH s Hs).
+    intros r Hr. apply H. exact (refs_sub c s r Hs Hr). }
+  assert (Hh : is_auto_ref (c_ref c) = false) by (apply H, refs_head).
+  destruct c as [a1 a2 a3 a4 a5 a6 a7 a8 a9 a10 a11 a12 subs]. cbn [clear_auto c_ref c_sub] in *.
+  rewrite Hh, Hs. reflexivity.
+Qed.
+
+Lemma refs_leaf c : c_sub c = [] -> refs c = [c_ref c] /\ pairs c = [].
+Proof. destruct c as [a1 a2 a3 a4 a5 a6 a7 a8 a9 a10 a11 a12 subs]. cbn [c_sub refs pairs c_ref]. intros ->. split; reflexivity. Qed.
+
+Lemma cdx_ser_meta d b : cdx_ser d = Ok b ->
+  b_has_metadata b = true /\ exists mc, b_meta_comp b = Some mc /\ c_sub mc = [].
+Proof.
+  unfold cdx_ser. destruct (d_metadata d) as [md|]; [|discriminate]. destruct (d_node_list d) as [nl|]; [|discriminate].
+  destruct (nl_root_elements nl) as [|root [|r2 rr]]; [| |discriminate].
+  - destruct (nl_nodes nl); [|discriminate]. intros H. injection H as <-. split; [reflexivity|]. exists empty_comp. split; reflexivity.
+  - destruct (first_node root (nl_nodes nl)) as [rn|]; [|discriminate].
+    destruct (all_ok phase_of (md_documentTypes md)) as [lcs| | |]; try discriminate.
+    destruct (negb _); [discriminate|]. destruct (negb _); [discriminate|]. intros H. injection H as <-.
+    cbn [b_has_metadata b_meta_comp]. split; [reflexivity|].
+    assert (Hsn : forall c nm, c_sub (set_name c nm) = c_sub c) by (intros [] ?; reflexivity).
+    eexists. split; [reflexivity|]. match goal with |- context [if ?c then _ else _] => destruct c end; rewrite ?Hsn; reflexivity.
+Qed.
+
+Theorem cdx_tree_roundtrip d md nl root rank b :
+  d_metadata d = Some md -> d_node_list d = Some nl -> cdx_tree_class nl root rank -> cdx_ser d = Ok b ->
+  let nl' := cdx_unser_nl b in
+  (forall i, Nset nl' i <-> Nset nl i) /\
+  (forall f t x, Eset nl' f t x <-> Eset nl f t x) /\
+  nl_root_elements nl' = [root].
+Proof.
+  intros Emd Enl C Hser. cbn zeta.
+  destruct C as [Croots Cnd Crin Cids Cedges Crr Crank Cuniq Cconn].
+  destruct (cdx_ser_shape d b Hser) as [md' [nl0 [_ [Enl0 [[Er0 _]|[root0 [rn [Er0 [Efn [Hfrom [Hto [Ecomps [_ Emeta]]]]]]]]]]]]];
+    rewrite Enl in Enl0; injection Enl0 as <-; rewrite Croots in Er0; [discriminate|injection Er0 as <-].
+  destruct (cdx_ser_meta d b Hser) as [Hhm [mc [Emc Hleaf]]].
+  rewrite Emc in Emeta. cbn [option_map] in Emeta. injection Emeta as Eref.
+  destruct (refs_leaf mc Hleaf) as [Rm Pm]. rewrite Eref in Rm.
+  assert (Hclosed : contains_closed nl) by (intros e He Ht x Hx; exact (Hto e He (or_introl Ht) x Hx)).
+  pose proof (forest_exactly_once nl root Hclosed) as Honce.
+  rewrite (dedup_id (ids nl) Cnd) in Honce.
+  (* the serializer's assembly meets the premises of the tree theorem *)
+  set (par := parents root (nl_edges nl)).
+  destruct (parents_inv root (nl_edges nl)) as [Hpok Hkeys]. fold par in Hpok, Hkeys. rewrite Forall_forall in Hpok.
+  assert (Hpar_edge : forall x p, In (x, p) par <-> exists e, In e (nl_edges nl) /\ e_from e = p /\ In x (e_to e)).
+  { intros x p. split.
+    - intros H. destruct (Hpok _ H) as [_ [_ [e [He [_ [Hf Hx]]]]]]. exists e. auto.
+    - intros [e [He [Hf Hx]]]. destruct (proj2 (Cedges e He) x Hx) as [_ Ht].
+      assert (Hxr : x <> root) by (intros ->; pose proof (Crank e root He Hx); lia).
+      assert (Hxf : x <> e_from e) by (intros E; pose proof (Crank e x He Hx); rewrite <- E in *; lia).
+      pose proof (parents_complete root (nl_edges nl) e x He Ht Hx Hxr Hxf) as Hk. fold par in Hk.
+      apply in_map_iff in Hk as [[x' p'] [E Hin]]. cbn [fst] in E. subst x'.
+      destruct (Hpok _ Hin) as [_ [_ [e' [He' [_ [Hf' Hx']]]]]]. cbn [fst snd] in *.
+      pose proof (Cuniq e e' x He He' Hx Hx'). congruence. }
+  assert (Hspec : forall p x,
+            In (p, x) (flat_map pairs (cdx_forest nl root) ++ map (fun c => (root, c_ref c)) (cdx_forest nl root)) <-> In (x, p) par).
+  { unfold cdx_forest, first_occurrences. rewrite (dedup_id (ids nl) Cnd).
+    apply (tree_forest_spec (ids nl) root (last_comp (nl_nodes nl)) par rank Cnd).
+    - intros x Hx. apply last_comp_ref. exact Hx.
+    - intros x p H. apply Hpar_edge in H as [e [He [Hf Hx]]]. destruct (Cedges e He) as [Hfi Hti].
+      split; [exact (proj1 (Hti x Hx))|]. split; [intros ->; pose proof (Crank e root He Hx); lia|right; rewrite <- Hf; exact Hfi].
+    - exact Hkeys.
+    - intros x p H. apply Hpar_edge in H as [e [He [Hf Hx]]]. rewrite <- Hf. exact (Crank e x He Hx).
+    - intros x Hx Hne. destruct (Cconn x Hx Hne) as [e [He Hxe]]. exists (e_from e). apply Hpar_edge. exists e. auto. }
+  (* no generated references: nothing is blanked *)
+  assert (Hforest_ids : forall r, In r (flat_map refs (cdx_forest nl root)) -> In r (ids nl)).
+  { intros r Hr. eapply Permutation_in in Hr; [|exact Honce]. apply filter_In in Hr. exact (proj1 Hr). }
+  assert (Hclear : map clear_auto (cdx_forest nl root) = cdx_forest nl root).
+  { rewrite <- (map_id (cdx_forest nl root)) at 2. apply map_ext_in. intros c Hc. apply clear_auto_id.
+    intros r Hr. apply (proj2 (Cids r (Hforest_ids r (proj2 (in_flat_map refs _ r) (ex_intro _ c (conj Hc Hr)))))). }
+  rewrite Hclear in Ecomps.
+  assert (Hne : forall r, In r (refs mc ++ flat_map refs (b_components b)) -> r <> "").
+  { intros r Hr. rewrite Rm, Ecomps in Hr. destruct Hr as [<-|Hr]; [exact (proj1 (Cids root Crin))|exact (proj1 (Cids r (Hforest_ids r Hr)))]. }
+  destruct (cdx_unser_spec b mc Hhm Emc Hne) as [UN [UE UR]].
+  rewrite Rm, Pm, Ecomps, Eref in *.
+  split; [|split].
+  - intros i. rewrite UN. cbn [app In]. split.
+    + intros [<-|H]; [exact Crin|exact (Hforest_ids i H)].
+    + intros H. destruct (string_dec i root) as [->|Hne']; [left; reflexivity|right].
+      eapply Permutation_in; [apply Permutation_sym; exact Honce|]. apply filter_In. split; [exact H|]. apply negb_eqb_true. exact Hne'.
+  - intros f t x. rewrite UE. cbn [app]. rewrite Hspec, Hpar_edge. unfold Eset, InE. split.
+    + intros [-> [e [He [Hf Hx]]]]. exists e. destruct (proj2 (Cedges e He) x Hx) as [_ Ht]. auto.
+    + intros [e [He [Hf [Ht Hx]]]]. destruct (proj2 (Cedges e He) x Hx) as [_ Ht']. split; [congruence|]. exists e. auto.
+  - exact UR.
+Qed.
+
+
+(* every tree of the class is accepted by the serializer (given known document types) *)
+Theorem cdx_tree_serializable d md nl root rank :
+  d_metadata d = Some md -> d_node_list d = Some nl -> cdx_tree_class nl root rank ->
+  (forall dt, In dt (md_documentTypes md) -> exists ph, phase_of dt = Ok ph) ->
+  exists b, cdx_ser d = Ok b.
+Proof.
+  intros Emd Enl C Hdt. apply cdx_ser_ok_iff. exists md, nl. split; [exact Emd|]. split; [exact Enl|]. right.
+  exists root. split; [exact (tc_roots _ _ _ C)|]. split; [exact (tc_root_in _ _ _ C)|]. split; [exact Hdt|].
+  split.
+  - intros e He. exact (proj1 (tc_edges _ _ _ C e He)).
+  - intros e He _ x Hx. exact (proj1 (proj2 (tc_edges _ _ _ C e He) x Hx)).
+Qed.
+
+(* what is read back is again a tree of the class: a second pass changes nothing further *)
+Theorem cdx_tree_class_preserved d md nl root rank b :
+  d_metadata d = Some md -> d_node_list d = Some nl -> cdx_tree_class nl root rank -> cdx_ser d = Ok b ->
+  cdx_tree_class (cdx_unser_nl b) root rank.
+Proof.
+  intros Emd Enl C Hser. destruct (cdx_tree_roundtrip d md nl root rank b Emd Enl C Hser) as [HN [HE HR]].
+  pose proof (cdx_unser_wf b) as [Wn [Wc Wr]].
+  assert (Htrip : forall e x, In e (nl_edges (cdx_unser_nl b)) -> In x (e_to e) ->
+            exists e0, In e0 (nl_edges nl) /\ e_from e0 = e_from e /\ e_type e0 = e_type e /\ In x (e_to e0)).
+  { intros e x He Hx. apply (proj1 (HE (e_from e) (e_type e) x)). exists e. auto. }
+  destruct C as [Croots Cnd Crin Cids Cedges Crr Crank Cuniq Cconn].
+  constructor.
+  - exact HR.
+  - exact Wn.
+  - apply HN. exact Crin.
+  - intros i Hi. apply Cids. apply HN. exact Hi.
+  - intros e He. split; [exact (closed_from _ _ _ Wc He)|]. intros x Hx. split; [exact (closed_to _ _ _ _ Wc He Hx)|].
+    destruct (Htrip e x He Hx) as [e0 [He0 [_ [Ht Hx0]]]]. rewrite <- Ht. exact (proj2 (proj2 (Cedges e0 He0) x Hx0)).
+  - exact Crr.
+  - intros e x He Hx. destruct (Htrip e x He Hx) as [e0 [He0 [Hf [_ Hx0]]]]. rewrite <- Hf. exact (Crank e0 x He0 Hx0).
+  - intros e1 e2 x H1 H2 X1 X2. destruct (Htrip e1 x H1 X1) as [a [Ha [Fa [_ Xa]]]]. destruct (Htrip e2 x H2 X2) as [c [Hc [Fc [_ Xc]]]].
+    rewrite <- Fa, <- Fc. exact (Cuniq a c x Ha Hc Xa Xc).
+  - intros i Hi Hne. destruct (Cconn i (proj1 (HN i) Hi) Hne) as [e0 [He0 Hx0]].
+    destruct (proj2 (HE (e_from e0) (e_type e0) i)) as [e [He [_ [_ Hx]]]]; [exists e0; auto|]. exists e. auto.
+Qed.
